@@ -418,7 +418,9 @@ def check(prog, run):
     for mod, q in ((EXE, "Executor.complete_non_nullable_value"), (BEXE, "BlockingExecutor.complete_non_nullable_value")):
         f = prog.get_func(mod, q)
         run.looked_at(f)
-        uses = any(isinstance(n, ast.Call) and isinstance(n.func, ast.Attribute) and n.func.attr == "_handle_non_nullable_value" for n in ast.walk(f.node))
+        # the bound method may be named first (`check = self._handle_non_nullable_value; ...; return check(...)`): any
+        # read of the attribute whose value is called counts, the call itself is checked by C08.R14's path form
+        uses = any(isinstance(n, ast.Attribute) and n.attr == "_handle_non_nullable_value" and isinstance(n.ctx, ast.Load) for n in ast.walk(f.node))
         r.instance("%s routes through _handle_non_nullable_value: %s" % (q, uses))
         if not uses:
             run.report(r, "%s:%s:unchecked" % (mod, q), f.where(), "non-null completion does not check for null")
